@@ -18,7 +18,20 @@
    per item a list of outcomes to set in order ([] = the body forgets the item, [o] = sets it,
    [o; o'] = sets it twice: the second set raises FutureIsAlreadyComputed out of the body), then
    the body returns / raises [bfin].  Items get their subscribers before the first operation;
-   reset_unsafe() is not part of this family (Futures.v / TaskFut.v cover it).                      *)
+   reset_unsafe() is not part of this family (Futures.v / TaskFut.v cover it).
+
+   CROSS-FUTURE CALLBACKS (round 7).  A subscriber of one future of the case may complete ANOTHER one
+   from inside its notification (Futures.CbSet target outcome guarded: 0 = the batch, i = item i): a
+   later / earlier sibling item, the item itself, the batch.  The nested completion runs the nested
+   future's own notification (and, for the batch, BatchBase._computed with its item loop) before the
+   outer callback returns.  A `_cancel()` override may set items too ([bcancel]).  The item loop of
+   BatchBase._computed tests `item.is_computed()` RIGHT BEFORE each `item.set_error()` (batching.py
+   132-140): an item completed meanwhile by a callback keeps the callback's outcome.
+   Nesting is bounded by the number of futures (each nested completion consumes an uncomputed
+   future); the executable model ties the recursion with a depth counter: [bset_at d] lets callbacks
+   nest d levels deep, below that a CbSet counts as a raising callback ([no_rec]); the top-level
+   operations use d = number of items + 2.  Every theorem holds for EVERY depth.                    *)
+
 From Asynq Require Export Base Futures.
 
 Record item := imk {
@@ -33,6 +46,8 @@ Definition blogrec := (Z * Z * outcome)%type.
 Record bstate := bmk {
   bitems : list item;
   bfin : pout;                   (* how the flush body ends after it went over the items         *)
+  bcancel : list (nat * outcome);(* the _cancel() override: `if not items[i].is_computed():
+                                    items[i].set_value/set_error(o)` for each entry, in order     *)
   bout : option outcome;
   bruns : nat;                   (* how many times _flush ran                                    *)
   bsubs : list sub;
@@ -40,86 +55,187 @@ Record bstate := bmk {
   binner : list res              (* results of the body's set_value/set_error calls, in order    *)
 }.
 
-(* set_value / set_error on the uncomputed item number t: outcome stored, then its subscribers *)
-Definition icomplete (t : Z) (it : item) (o : outcome) : item * list blogrec :=
-  (imk (Some o) (fst (notify (isubs it) (isubs it))) (iact it),
-   map (fun id => (t, id, o)) (snd (notify (isubs it) (isubs it)))).
+Definition E_BSKIP : exn := -20.   (* operation outside this family: not issued by the runner     *)
+Definition E_DEPTH : exn := -21.   (* nesting deeper than the model's depth counter (never compared) *)
 
-Definition iset (t : Z) (it : item) (o : outcome) : item * list blogrec * res :=
-  match iout it with
-  | Some _ => (it, [], RRaise E_ALREADY)
-  | None => let '(it', l) := icomplete t it o in (it', l, RUnit)
+(* ---- addressing the futures of the case: 0 = the batch, S i = item number i+1 ---- *)
+Definition item_out (s : bstate) (i : nat) : option outcome :=
+  match nth_error (bitems s) i with Some it => iout it | None => None end.
+
+Definition fout (s : bstate) (t : nat) : option outcome :=
+  match t with O => bout s | S i => item_out s i end.
+
+Definition fexists (s : bstate) (t : nat) : bool :=
+  match t with O => true | S i => Nat.ltb i (length (bitems s)) end.
+
+Definition fsubs (s : bstate) (t : nat) : list sub :=
+  match t with
+  | O => bsubs s
+  | S i => match nth_error (bitems s) i with Some it => isubs it | None => [] end
   end.
 
-(* the body's calls on one item; the first one that raises ends the body *)
-Fixpoint iset_all (t : Z) (it : item) (os : list outcome) : item * list blogrec * list res * option exn :=
-  match os with
-  | [] => (it, [], [], None)
-  | o :: r =>
-    let '(it1, l1, r1) := iset t it o in
-    match r1 with
-    | RRaise e => (it1, l1, [r1], Some e)
-    | _ => let '(it2, l2, rs, f) := iset_all t it1 r in (it2, l1 ++ l2, r1 :: rs, f)
-    end
+Fixpoint upd_nth (i : nat) (f : item -> item) (l : list item) : list item :=
+  match l, i with
+  | [], _ => []
+  | x :: r, O => f x :: r
+  | x :: r, S j => x :: upd_nth j f r
   end.
 
-Fixpoint flush_body (t : Z) (l : list item) : list item * list blogrec * list res * option exn :=
-  match l with
-  | [] => ([], [], [], None)
-  | it :: r =>
-    let '(it1, l1, rs1, f1) := iset_all t it (iact it) in
-    match f1 with
-    | Some e => (it1 :: r, l1, rs1, Some e)
-    | None => let '(r', l2, rs2, f2) := flush_body (t + 1) r in (it1 :: r', l1 ++ l2, rs1 ++ rs2, f2)
-    end
+Definition with_items (s : bstate) (l : list item) : bstate :=
+  bmk l (bfin s) (bcancel s) (bout s) (bruns s) (bsubs s) (blog s) (binner s).
+
+Definition set_fsubs (s : bstate) (t : nat) (l : list sub) : bstate :=
+  match t with
+  | O => bmk (bitems s) (bfin s) (bcancel s) (bout s) (bruns s) l (blog s) (binner s)
+  | S i => with_items s (upd_nth i (fun it => imk (iout it) l (iact it)) (bitems s))
   end.
 
-(* BatchBase._computed's loop: every item that is not computed is completed with error e *)
-Fixpoint fill (t : Z) (l : list item) (e : exn) : list item * list blogrec :=
-  match l with
-  | [] => ([], [])
-  | it :: r =>
-    let '(r', lg) := fill (t + 1) r e in
-    match iout it with
-    | Some _ => (it :: r', lg)
-    | None => let '(it', l1) := icomplete t it (Err e) in (it' :: r', l1 ++ lg)
-    end
+(* FutureBase.set_value / set_error, first half: the outcome is stored *)
+Definition store (s : bstate) (t : nat) (o : outcome) : bstate :=
+  match t with
+  | O => bmk (bitems s) (bfin s) (bcancel s) (Some o) (bruns s) (bsubs s) (blog s) (binner s)
+  | S i => with_items s (upd_nth i (fun it => imk (Some o) (isubs it) (iact it)) (bitems s))
   end.
+
+Definition add_log (s : bstate) (r : blogrec) : bstate :=
+  bmk (bitems s) (bfin s) (bcancel s) (bout s) (bruns s) (bsubs s) (blog s ++ [r]) (binner s).
+
+Definition push_binner (s : bstate) (r : res) : bstate :=
+  bmk (bitems s) (bfin s) (bcancel s) (bout s) (bruns s) (bsubs s) (blog s) (binner s ++ [r]).
+
+Definition is_raise (r : res) : bool := match r with RRaise _ => true | _ => false end.
 
 Definition fill_error (o : outcome) : exn := match o with Err e => e | Ok _ => E_NOTSET end.
 
-(* set_value / set_error on the uncomputed batch: outcome stored, BatchBase._computed: the item
-   loop, then the batch's own subscribers *)
-Definition bcomplete (s : bstate) (o : outcome) : bstate :=
-  let '(its, lg) := fill 1 (bitems s) (fill_error o) in
-  bmk its (bfin s) (Some o) (bruns s) (fst (notify (bsubs s) (bsubs s)))
-      (blog s ++ lg ++ map (fun id => (0, id, o)) (snd (notify (bsubs s) (bsubs s)))) (binner s).
+(* ---- one level of completion; [rec] = what a callback's CbSet on an uncomputed future does ---- *)
+Section Level.
+  Variable rec : bstate -> nat -> outcome -> bstate * res.
 
-(* BatchBase._compute on an uncomputed batch *)
-Definition bcompute (s : bstate) : bstate :=
-  let '(its, lg, rs, f) := flush_body 1 (bitems s) in
-  bcomplete (bmk its (bfin s) (bout s) (S (bruns s)) (bsubs s) (blog s ++ lg) (binner s ++ rs))
-            (match f with
+  (* one call of a subscriber of future t (after its record was logged) *)
+  Fixpoint run_bcb (t : nat) (k : cbkind) (s : bstate) : bstate * bool :=
+    match k with
+    | CbOk => (s, false)
+    | CbRaise _ => (s, true)
+    | CbUnsub x =>
+      match remove_first x (fsubs s t) with Some l => (set_fsubs s t l, false) | None => (s, true) end
+    | CbSub id k' => (set_fsubs s t (fsubs s t ++ [(id, k')]), false)
+    | CbSeq a b => let '(s1, r) := run_bcb t a s in if r then (s1, true) else run_bcb t b s1
+    | CbSet x o g =>
+      match fout s (Z.to_nat x) with
+      | Some _ => (s, negb g)           (* guarded: skipped; unguarded: FutureIsAlreadyComputed *)
+      | None => let '(s', r) := rec s (Z.to_nat x) o in (s', is_raise r)
+      end
+    end.
+
+  (* safe_trigger over the copy [snap] of future t's handler list: each handler sees the outcome
+     (its record), then does what its script says; what it raises is swallowed *)
+  Fixpoint bnotify (t : nat) (o : outcome) (snap : list sub) (s : bstate) : bstate :=
+    match snap with
+    | [] => s
+    | sb :: rest => bnotify t o rest (fst (run_bcb t (snd sb) (add_log s (Z.of_nat t, fst sb, o))))
+    end.
+
+  (* set_value / set_error on ITEM number i+1 (FutureBase.set_*, FutureBase._computed) *)
+  Definition iset (s : bstate) (i : nat) (o : outcome) : bstate * res :=
+    match item_out s i with
+    | Some _ => (s, RRaise E_ALREADY)
+    | None =>
+      if Nat.ltb i (length (bitems s))
+      then let s1 := store s (S i) o in (bnotify (S i) o (fsubs s1 (S i)) s1, RUnit)
+      else (s, RRaise E_BSKIP)
+    end.
+
+  (* the _cancel() override *)
+  Fixpoint cancel_sets (l : list (nat * outcome)) (s : bstate) : bstate :=
+    match l with
+    | [] => s
+    | (i, o) :: r =>
+      cancel_sets r (match item_out s i with Some _ => s | None => fst (iset s i o) end)
+    end.
+
+  (* BatchBase._computed's loop `for item in self.items: if not item.is_computed(): item.set_error(e)`:
+     the test is made right before each set, on the state the earlier sets and their callbacks left *)
+  Fixpoint fill_loop (i n : nat) (e : exn) (s : bstate) : bstate :=
+    match n with
+    | O => s
+    | S n' =>
+      fill_loop (S i) n' e (match item_out s i with Some _ => s | None => fst (iset s i (Err e)) end)
+    end.
+
+  (* set_value / set_error on the BATCH: outcome stored; BatchBase._computed: _cancel() when the
+     outcome is an error, the item loop, then the batch's own subscribers *)
+  Definition bset0 (s : bstate) (o : outcome) : bstate * res :=
+    match bout s with
+    | Some _ => (s, RRaise E_ALREADY)
+    | None =>
+      let s1 := store s O o in
+      let s2 := match o with Err _ => cancel_sets (bcancel s1) s1 | Ok _ => s1 end in
+      let s3 := fill_loop 0 (length (bitems s2)) (fill_error o) s2 in
+      (bnotify O o (bsubs s3) s3, RUnit)
+    end.
+
+  Definition bset_level (s : bstate) (t : nat) (o : outcome) : bstate * res :=
+    match t with O => bset0 s o | S i => iset s i o end.
+
+  (* the flush body's calls on item i+1; the first one that raises ends the body *)
+  Fixpoint body_item (i : nat) (os : list outcome) (s : bstate) : bstate * option exn :=
+    match os with
+    | [] => (s, None)
+    | o :: r =>
+      let '(s1, x) := iset s i o in
+      match x with
+      | RRaise e => (push_binner s1 x, Some e)
+      | _ => body_item i r (push_binner s1 x)
+      end
+    end.
+
+  Fixpoint flush_body (i : nat) (acts : list (list outcome)) (s : bstate) : bstate * option exn :=
+    match acts with
+    | [] => (s, None)
+    | os :: r =>
+      let '(s1, f) := body_item i os s in
+      match f with Some e => (s1, Some e) | None => flush_body (S i) r s1 end
+    end.
+
+  (* BatchBase._compute on an uncomputed batch: `_flush(); self.set_value(None)` inside `try`,
+     `except BaseException as error: if not self.is_computed(): self.set_error(error)` - a batch
+     that a callback completed while the body ran keeps that outcome *)
+  Definition bcompute (s : bstate) : bstate :=
+    let s0 := bmk (bitems s) (bfin s) (bcancel s) (bout s) (S (bruns s)) (bsubs s) (blog s) (binner s) in
+    let '(s1, f) := flush_body 0 (map iact (bitems s0)) s0 in
+    let o := match f with
              | Some e => Err e
              | None => match bfin s with PRet _ => Ok VNone | PRaise _ e | PBase e => Err e | PDouble => Err E_ALREADY end
-             end).
+             end in
+    fst (bset0 s1 o).
+End Level.
+
+(* below the depth counter a callback's cross-future set counts as a raising callback *)
+Definition no_rec (s : bstate) (t : nat) (o : outcome) : bstate * res := (s, RRaise E_DEPTH).
+
+Fixpoint bset_at (d : nat) : bstate -> nat -> outcome -> bstate * res :=
+  match d with
+  | O => bset_level no_rec
+  | S d' => bset_level (bset_at d')
+  end.
+
+Definition depth_of (s : bstate) : nat := length (bitems s) + 2.
+
+(* what the top-level operations use *)
+Definition bset (s : bstate) (t : nat) (o : outcome) : bstate * res := bset_at (S (depth_of s)) s t o.
+Definition bcompute_top (s : bstate) : bstate := bcompute (bset_at (depth_of s)) s.
 
 Inductive bop :=
 | BOn (t : nat) (o : op)      (* operation o on the batch (t = 0) or on item number t             *)
 | BFlush                      (* batch.flush()                                                     *)
 | BCancel.                    (* batch.cancel()                                                    *)
 
-Definition E_BSKIP : exn := -20.   (* operation outside this family: not issued by the runner     *)
-
 Definition bread (s : bstate) (rep : outcome -> res) : bstate * res :=
   match bout s with
   | Some o => (s, rep o)
-  | None => let s' := bcompute s in
+  | None => let s' := bcompute_top s in
             (s', match bout s' with Some o => rep o | None => RRaise E_NOTIMPL end)
   end.
-
-Definition item_out (s : bstate) (i : nat) : option outcome :=
-  match nth_error (bitems s) i with Some it => iout it | None => None end.
 
 (* value()/error()/call on item number i+1: an uncomputed item flushes its batch *)
 Definition iread (s : bstate) (i : nat) (rep : outcome -> res) : bstate * res :=
@@ -128,7 +244,7 @@ Definition iread (s : bstate) (i : nat) (rep : outcome -> res) : bstate * res :=
   | None =>
     match bout s with
     | Some _ => (s, RRaise E_BSKIP)      (* no such item / unreachable: all_items_computed *)
-    | None => let s' := bcompute s in
+    | None => let s' := bcompute_top s in
               (s', match item_out s' i with Some o => rep o | None => RRaise E_BSKIP end)
     end
   end.
@@ -137,19 +253,16 @@ Definition bstep (s : bstate) (o : bop) : bstate * res :=
   match o with
   | BOn O (OValue | OCall) => bread s report_value
   | BOn O OError => bread s report_error
-  | BOn O OIsComputed => (s, RBool (match bout s with Some _ => true | None => false end))
-  | BOn O (OSetValue v) =>
-    match bout s with Some _ => (s, RRaise E_ALREADY) | None => (bcomplete s (Ok v), RUnit) end
-  | BOn O (OSetError e) =>
-    match bout s with Some _ => (s, RRaise E_ALREADY) | None => (bcomplete s (Err e), RUnit) end
-  | BOn O (OSubscribe id k) =>
-    (bmk (bitems s) (bfin s) (bout s) (bruns s) (bsubs s ++ [(id, k)]) (blog s) (binner s), RUnit)
   | BOn (S i) (OValue | OCall) => iread s i report_value
   | BOn (S i) OError => iread s i report_error
-  | BOn (S i) OIsComputed => (s, RBool (match item_out s i with Some _ => true | None => false end))
-  | BOn _ _ => (s, RRaise E_BSKIP)
-  | BFlush => match bout s with Some _ => (s, RRaise E_BATCHING) | None => (bcompute s, RUnit) end
-  | BCancel => match bout s with Some _ => (s, RUnit) | None => (bcomplete s (Err E_CANCELLED), RUnit) end
+  | BOn t OIsComputed => (s, RBool (match fout s t with Some _ => true | None => false end))
+  | BOn t (OSetValue v) => bset s t (Ok v)
+  | BOn t (OSetError e) => bset s t (Err e)
+  | BOn t (OSubscribe id k) =>
+    if fexists s t then (set_fsubs s t (fsubs s t ++ [(id, k)]), RUnit) else (s, RRaise E_BSKIP)
+  | BOn _ OReset => (s, RRaise E_BSKIP)
+  | BFlush => match bout s with Some _ => (s, RRaise E_BATCHING) | None => (bcompute_top s, RUnit) end
+  | BCancel => match bout s with Some _ => (s, RUnit) | None => (fst (bset s O (Err E_CANCELLED)), RUnit) end
   end.
 
 Fixpoint brun (s : bstate) (ops : list bop) : bstate * list res :=
@@ -164,14 +277,14 @@ Fixpoint brun (s : bstate) (ops : list bop) : bstate * list res :=
    what the flush body sets on it *)
 Definition ispec := (list sub * list outcome)%type.
 
-Definition binit (its : list ispec) (fin : pout) : bstate :=
-  bmk (map (fun sp => imk None (fst sp) (snd sp)) its) fin None 0 [] [] [].
+Definition binit (its : list ispec) (fin : pout) (cs : list (nat * outcome)) : bstate :=
+  bmk (map (fun sp => imk None (fst sp) (snd sp)) its) fin cs None 0 [] [] [].
 
 (* compared by the correspondence: op results, the results of the body's sets, the callback log,
    the number of _flush runs, the batch's subscribers at the end, every item's final outcome
    (None = never completed) and subscribers *)
-Definition run_batch (its : list ispec) (fin : pout) (ops : list bop)
+Definition run_batch (its : list ispec) (fin : pout) (cs : list (nat * outcome)) (ops : list bop)
   : list res * list res * list blogrec * Z * list Z * list (option outcome * list Z) :=
-  let '(s, rs) := brun (binit its fin) ops in
+  let '(s, rs) := brun (binit its fin cs) ops in
   (rs, binner s, blog s, Z.of_nat (bruns s), map fst (bsubs s),
    map (fun it => (iout it, map fst (isubs it))) (bitems s)).
